@@ -115,3 +115,15 @@ def exc_name(e):
     if n == 'OtherError':
         return 'other:' + type(e).__name__
     return n
+
+
+def with_fresh_gen(gens, targets, fn):
+    """Run fn() (in-Coq evaluation of cases) while holding the build lock, after making sure that coq/Gen/* and the
+    compiled closure belong to THIS run's tree: another check running concurrently against a different tree may have
+    regenerated them since proof_status released the lock (seen as 'inconsistent assumptions' in the case files)."""
+    with C.Lock():
+        info = C.run_generators(gens)
+        bad = [k for k, v in info.items() if v['rc'] != 0]
+        if not bad:
+            C.make(targets, timeout=1500)
+        return fn()
